@@ -252,3 +252,31 @@ Example C19_nonvacuous_split_simplify :
   /\ simplify_string (Z.add 1) (Z.add 10) (Z.add 100)
        [mkCE None 0 1 [(K_title, VStr 1000)]; mkCE None 0 1 [(K_app, VStr 2)]] K_title = Err KeyError.
 Proof. vm_compute. repeat split; reflexivity. Qed.
+
+(* ------------------------------------------------------------------ round 2: keys not asked for *)
+
+(* simplify_string(events, key) with any key: whatever else the event carries (app, a title
+   with a bullet or an FPS counter, ...), every key other than `key` reads exactly as before, at
+   every position; in particular a key other than "title" leaves every title as it was. *)
+From AwVerif Require Import Proofs.ClassifyCross.
+
+Theorem C19_simplify_other_keys_untouched : forall sub_parens sub_fps sub_dot key evs evs',
+  simplify_string sub_parens sub_fps sub_dot evs key = Ok evs' ->
+  forall i e e' k, nth_error evs i = Some e -> nth_error evs' i = Some e' ->
+    k <> key -> dget k (c_data e') = dget k (c_data e).
+Proof. exact simplify_other_keys. Qed.
+Print Assumptions C19_simplify_other_keys_untouched.
+
+Theorem C19_simplify_title_untouched : forall sub_parens sub_fps sub_dot key evs evs',
+  simplify_string sub_parens sub_fps sub_dot evs key = Ok evs' -> key <> K_title ->
+  map (fun e => dget K_title (c_data e)) evs' = map (fun e => dget K_title (c_data e)) evs.
+Proof. exact simplify_title_untouched. Qed.
+Print Assumptions C19_simplify_title_untouched.
+
+(* key = app on a window event (app and title both rewritable by every substitution: the toy
+   substitutions add 1 / 10 / 100 to any string label): only app changes, by the parens step alone *)
+Example C19_nonvacuous_simplify_other_key :
+  simplify_string (Z.add 1) (Z.add 10) (Z.add 100)
+    [mkCE (Some 4) 7 9 [(K_app, VStr 2000); (K_title, VStr 1000); (201, VStr 3000)]] K_app
+  = Ok [mkCE (Some 4) 7 9 [(K_app, VStr 2001); (K_title, VStr 1000); (201, VStr 3000)]].
+Proof. vm_compute. reflexivity. Qed.
